@@ -180,6 +180,47 @@ fn values(rep: &mut Report) {
     rep.absorb("U-dt-values", "Datetime values built from a lattice of in-range fields (years incl. 0000/9999 and leap days, second 60, 9 fraction patterns, 11 offsets incl. +-23:59), all four kinds", total, true, t0, acc);
 }
 
+/// every substitution of THREE positions of each seed by every symbol of the alphabet (streamed, never materialised)
+fn sub3(rep: &mut Report) {
+    use crate::docu::{DT_ALPHA, DT_SEEDS};
+    use rayon::prelude::*;
+    let t0 = std::time::Instant::now();
+    let mut work: Vec<(usize, usize, usize)> = Vec::new();
+    for (si, s) in DT_SEEDS.iter().enumerate() {
+        let n = s.len();
+        for i in 0..n {
+            for j in i + 1..n {
+                work.push((si, i, j));
+            }
+        }
+    }
+    let alpha: Vec<u8> = DT_ALPHA.iter().map(|a| a.as_bytes()[0]).collect();
+    let acc = work
+        .par_iter()
+        .fold(Acc::default, |mut acc, &(si, i, j)| {
+            let seed = DT_SEEDS[si].as_bytes();
+            let mut buf = seed.to_vec();
+            for k in j + 1..seed.len() {
+                for &a in &alpha {
+                    buf[i] = a;
+                    for &b in &alpha {
+                        buf[j] = b;
+                        for &c in &alpha {
+                            buf[k] = c;
+                            acc.evals += 1;
+                            c12_eval(std::str::from_utf8(&buf).unwrap(), &mut acc);
+                        }
+                    }
+                }
+                buf[k] = seed[k];
+            }
+            acc
+        })
+        .reduce(Acc::default, Acc::merge);
+    let total = acc.evals;
+    rep.absorb("U-dt-sub3", "every substitution of 3 positions of each of the 14 seeds by every symbol of the 16-symbol alphabet", total, true, t0, acc);
+}
+
 pub fn c12(tier: Tier) -> i32 {
     let mut rep = Report::new(
         "C12",
@@ -189,11 +230,15 @@ pub fn c12(tier: Tier) -> i32 {
     );
     rep.assumptions = vec!["refmodel's date-time reading follows RFC 3339 as restricted by TOML 1.0.0 (hour 00-23, minute 00-59, second 00-60, offset 00-23:00-59, Gregorian leap years)".into()];
     let t0 = std::time::Instant::now();
-    let k = tier.pick(1, 2);
+    // edit distance 2 costs ~6 s: both tiers run it; the thorough tier adds every 3-position substitution
+    let k = 2;
     let strs = dt_strings(k);
     let f = |s: &str, acc: &mut Acc| c12_eval(s, acc);
     let (total, acc) = sweep_list(&strs, &f);
     rep.absorb("U-dt", &format!("edit distance <= {} from 14 seeds + field sweeps", k), total, true, t0, acc);
+    if tier == Tier::Thorough {
+        sub3(&mut rep);
+    }
     values(&mut rep);
     rep.finish()
 }
